@@ -59,16 +59,47 @@ Theorem C08_unrelated_pairs_raise :
 Proof. vm_compute. repeat split; reflexivity. Qed.
 Print Assumptions C08_unrelated_pairs_raise.
 
-(* == and != between operands of one class: booleans (a list for a multi-valued sequence) without raising --
-   true for the quaternion and twist classes, for Plucker single-valued, for the dual quaternions, and for == on poses *)
+(* == and != between operands of one class: booleans (a list for a multi-valued sequence) without raising.
+   FULL for the pose, quaternion and twist classes (single-valued pose != was repaired by a4db0b4) and for the dual
+   quaternions.  Still _partial as a whole: Plucker only single-valued (C08_plucker_eq_multi_refuted), and the spatial-vector
+   classes and SpatialInertia not at all (C08_userlist_eq_refuted). *)
 Theorem C08_same_class_comparison_partial :
   forallb (fun X => both_lengths (fun n => forallb (fun o => outcome_beq (binop H n o (Obj X) (Obj X)) (Value (bools n) Computed)) [Eq; Ne]))
-          [Quaternion; UnitQuaternion; Twist2; Twist3] = true /\
-  forallb (fun X => both_lengths (fun n => outcome_beq (binop H n Eq (Obj X) (Obj X)) (Value (bools n) Computed))) [SO2; SE2; SO3; SE3] = true /\
-  forallb (fun X => outcome_beq (binop H 3 Ne (Obj X) (Obj X)) (Value RBoolList Computed)) [SO2; SE2; SO3; SE3] = true /\
+          [SO2; SE2; SO3; SE3; Quaternion; UnitQuaternion; Twist2; Twist3] = true /\
   forallb (fun o => outcome_beq (binop H 1 o (Obj Plucker) (Obj Plucker)) (Value RBool Computed)) [Eq; Ne] = true /\
   forallb (fun X => both_lengths (fun n => forallb (fun o => outcome_beq (binop H n o (Obj X) (Obj X)) (Value RBool Computed)) [Eq; Ne]))
           [DualQuaternion; UnitDualQuaternion] = true.
 Proof. vm_compute. repeat split; reflexivity. Qed.
 Print Assumptions C08_same_class_comparison_partial.
+
+(* (was _refuted + _partial before fix a4db0b4)  X != Y for poses: a bool for single-valued operands, a list otherwise *)
+Theorem C08_pose_ne :
+  forallb (fun X => both_lengths (fun n => outcome_beq (binop H n Ne (Obj X) (Obj X)) (Value (bools n) Computed))) [SO2; SE2; SO3; SE3] = true.
+Proof. vm_compute. reflexivity. Qed.
+Print Assumptions C08_pose_ne.
+
+(* (was _refuted before fix 56d2f84)  the product of two dual quaternions is a UnitDualQuaternion exactly when both factors are *)
+Theorem C08_dual_quaternion_product_class :
+  both_lengths (fun n =>
+     outcome_beq (binop H n Mul (Obj UnitDualQuaternion) (Obj UnitDualQuaternion)) (Value (RObj UnitDualQuaternion) Computed)
+  && outcome_beq (binop H n Mul (Obj UnitDualQuaternion) (Obj DualQuaternion)) (Value (RObj DualQuaternion) Computed)
+  && outcome_beq (binop H n Mul (Obj DualQuaternion) (Obj UnitDualQuaternion)) (Value (RObj DualQuaternion) Computed)
+  && outcome_beq (binop H n Mul (Obj DualQuaternion) (Obj DualQuaternion)) (Value (RObj DualQuaternion) Computed)) = true.
+Proof. vm_compute. reflexivity. Qed.
+Print Assumptions C08_dual_quaternion_product_class.
+
+(* (was _refuted before fix 11978d3)  scalar * twist and twist * scalar give the twist class, freshly computed, for SINGLE-valued
+   twists and either kind of scalar.  For multi-valued twists only twist * scalar does: C08_twist_rmul_multi_refuted. *)
+Theorem C08_scalar_times_twist_single :
+  forallb (fun X => forallb (fun s => outcome_beq (binop H 1 Mul s (Obj X)) (Value (RObj X) Computed)
+                                      && both_lengths (fun n => outcome_beq (binop H n Mul (Obj X) s) (Value (RObj X) Computed)))
+                            [KFloat; KInt]) [Twist2; Twist3] = true.
+Proof. vm_compute. reflexivity. Qed.
+Print Assumptions C08_scalar_times_twist_single.
+
+(* (raised AttributeError before fix 2cebac9)  SpatialInertia + SpatialInertia, single-valued *)
+Theorem C08_spatial_inertia_add :
+  binop H 1 Add (Obj SpatialInertia) (Obj SpatialInertia) = Value (RObj SpatialInertia) Computed.
+Proof. vm_compute. reflexivity. Qed.
+Print Assumptions C08_spatial_inertia_add.
 
